@@ -88,10 +88,10 @@ def to_script(rng, kinds, seq, prefix):
             steps.append({"a": "failw", "ms": 1})
             steps.append({"a": "wait", "ms": 4})
         elif a == "unbindl":
-            steps.append({"a": "unbindl", "s": 1})
+            steps.append({"a": "unbindl", "s": 1, "bare": rng.random() < 0.5})     # (bare: the stream is named by its SSRC only)
             steps.append({"a": "wait", "ms": 6})
         elif a == "unbindm":
-            steps.append({"a": "unbindm", "s": 2})
+            steps.append({"a": "unbindm", "s": 2, "bare": rng.random() < 0.5})
             needs_loop = NEEDS_LOOP & set(kinds) and not st["bw"] and not st["closed"]
             if rng.random() < 0.5 and not needs_loop:      # reads that were in flight when the stream was removed arrive through its old reader
                 for gap in (2, 3):
